@@ -1,5 +1,5 @@
-(* C14 -- one-shot request parsing agrees with the incremental connection parser.  PARTIAL. *)
-From MH Require Import proofs.Total_proofs proofs.Grammar_proofs.
+(* C14 -- one-shot request parsing agrees with the incremental connection parser. *)
+From MH Require Import proofs.Total_proofs proofs.Grammar_proofs proofs.Oneshot_proofs.
 
 (* the one-shot parser additionally rejects slices whose length reaches the caller's maximum *)
 Theorem C14_maxlen : forall bs n,
@@ -25,13 +25,30 @@ Theorem C14_conn_reference : forall BUF, (2 <= BUF)%nat -> forall L rlb rl hs hd
   runT BUF L PLine rest (acc ++ interim rl hd ++ [ORequest rl hd (delivered_body hd body)]).
 Proof. exact wellformed_delivered. Qed.
 
-(* PARTIAL.  The two implications of the property (one-shot accepts => the connection's first
-   request is equal; the connection delivers exactly one request with nothing left over => the
-   one-shot parser accepts, except GET with a body) are NOT proved as Coq theorems: they need the
-   equivalence between "first CRLFCRLF at or after the request line's CRLF" + split("\r\n") and the
-   connection's line-by-line scan, which was not completed.  They are decided on every run by
-   executing both entry points of the implementation (and both models) on the same slices and
-   comparing field by field -- the oracle is the property itself. *)
+(* whenever the one-shot parser accepts a slice, a connection fed the same bytes -- lines within
+   the line limit, declared length within the payload limit -- delivers as its FIRST request one with
+   identical method, URI, version, header values, custom headers and body (trailing bytes, where the
+   one-shot parser ignores them, included) *)
+Theorem C14_oneshot_implies_conn : forall BUF, (2 <= BUF)%nat -> forall L bs rl h body,
+  request_try_from bs None = OOk rl h body -> within_line_limit BUF bs -> h_content_length h <= L ->
+  first_req (outs_of (parse_stream BUF L bs)) = Some (rl, h, body).
+Proof. exact oneshot_implies_conn. Qed.
+(* within_line_limit: the request line and every CRLF-separated piece of the header block, as the
+   one-shot parser cuts them, fit the connection's line limit with their CRLF *)
+Check ((fun BUF bs => eq_refl) : forall BUF bs, within_line_limit BUF bs =
+  (forall rlb block, oneshot_parts bs = Some (rlb, block) ->
+    (length rlb + 2 <= BUF)%nat /\ Forall (fun l => (length l + 2 <= BUF)%nat) (split_crlf block))).
+
+(* str::split("\r\n") characterised: the pieces joined by CRLF give back the block and no piece
+   contains a CRLF *)
+Theorem C14_split_crlf : forall l,
+  split_crlf l <> [] /\ join_crlf (split_crlf l) = l /\ Forall (fun x => find_crlf x = None) (split_crlf l).
+Proof. exact split_crlf_spec. Qed.
+
+(* PARTIAL.  The converse implication (the connection turns a slice into exactly one request with
+   nothing left over => the one-shot parser accepts it with the same result, except GET with a body)
+   is not proved as a theorem; it is decided on every run by executing both entry points of the
+   implementation on the same slices and comparing field by field. *)
 
 Example C14_ex_agree :
   let bs := B"PUT /x HTTP/1.1" ++ CRLF ++ B"Content-Length: 2" ++ CRLF ++ B"X-A: b" ++ CRLF ++ CRLF ++ B"ab" in
@@ -50,3 +67,5 @@ Print Assumptions C14_maxlen.
 Print Assumptions C14_total.
 Print Assumptions C14_same_header_rule.
 Print Assumptions C14_conn_reference.
+Print Assumptions C14_oneshot_implies_conn.
+Print Assumptions C14_split_crlf.
